@@ -362,3 +362,67 @@ Proof.
            rewrite (IH _ pid p); [reflexivity| |exact Hr]. rewrite pat_of_cons, E. exact Hp.
         -- cbn [fst snd]. rewrite (IH _ pid p); [reflexivity|exact Hp|exact Hr].
 Qed.
+
+(** * what a registered NAME denotes is not changed by constructing scales, weighted scales, copies and keys - under
+      whatever names - nor by re-tuning other objects *)
+Lemma reg_of_hstep st o name r : reg_of st name = Some r -> reg_of (hstep st o) name = Some r.
+Proof.
+  intros H.
+  destruct o as [oid nm s|oid src|sl t oid|sl t nm|sl src|sl src oid|sl t|sl oid|oid l|oid o]; cbn [hstep].
+  - rewrite reg_of_register, reg_of_put_scale, H. reflexivity.
+  - destruct (scale_of st src); [rewrite reg_of_put_scale|]; exact H.
+  - rewrite reg_of_put_key. exact H.
+  - destruct (reg_of st nm); [rewrite reg_of_put_key|]; exact H.
+  - destruct (kobj_of st src); [rewrite reg_of_put_key|]; exact H.
+  - destruct (kobj_of st src) as [k0|]; [|exact H]. destruct (scale_of st (ko_scale k0)); [|exact H].
+    rewrite reg_of_put_key, reg_of_put_scale. exact H.
+  - destruct (kobj_of st sl); [rewrite reg_of_put_key|]; exact H.
+  - destruct (kobj_of st sl); [rewrite reg_of_put_key|]; exact H.
+  - destruct (scale_of st oid); [rewrite reg_of_put_scale|]; exact H.
+  - destruct (scale_of st oid); [rewrite reg_of_put_scale|]; exact H.
+Qed.
+
+Lemma scale_of_hstep_other st o oid : op_oid o <> Some oid -> scale_of (hstep st o) oid = scale_of st oid.
+Proof.
+  intros H.
+  assert (PS : forall x s, x <> oid -> scale_of (put_scale st x s) oid = scale_of st oid).
+  { intros x s Hne. rewrite scale_of_put_scale. destruct (Nat.eqb x oid) eqn:E; [apply Nat.eqb_eq in E; contradiction|reflexivity]. }
+  destruct o as [x nm s|x src|sl t x|sl t nm|sl src|sl src x|sl t|sl x|x l|x o]; cbn [hstep op_oid] in *.
+  - rewrite scale_of_register. apply PS. congruence.
+  - destruct (scale_of st src); [apply PS; congruence|reflexivity].
+  - reflexivity.
+  - destruct (reg_of st nm); reflexivity.
+  - destruct (kobj_of st src); reflexivity.
+  - destruct (kobj_of st src) as [k0|]; [|reflexivity]. destruct (scale_of st (ko_scale k0)); [|reflexivity].
+    rewrite scale_of_put_key. apply PS. congruence.
+  - destruct (kobj_of st sl); reflexivity.
+  - destruct (kobj_of st sl); reflexivity.
+  - destruct (scale_of st x); [apply PS; congruence|reflexivity].
+  - destruct (scale_of st x); [apply PS; congruence|reflexivity].
+Qed.
+
+(* one operation that does not write the registered object itself *)
+Lemma name_stable st o name r : reg_of st name = Some r -> op_oid o <> Some r ->
+  reg_of (hstep st o) name = Some r /\ reg_scale (hstep st o) name = reg_scale st name.
+Proof.
+  intros H Hne. pose proof (reg_of_hstep st o name r H) as R. split; [exact R|].
+  unfold reg_scale. rewrite R, H. apply scale_of_hstep_other. exact Hne.
+Qed.
+
+(* any history of such operations *)
+Lemma name_stable_run : forall ops st name r, reg_of st name = Some r ->
+  Forall (fun o => op_oid o <> Some r) ops ->
+  reg_of (hrun st ops) name = Some r /\ reg_scale (hrun st ops) name = reg_scale st name.
+Proof.
+  induction ops as [|o rest IH]; intros st name r H F; [split; [exact H|reflexivity]|].
+  inversion F as [|o' l' Ho Hrest]; subst. cbn [hrun fold_left].
+  destruct (name_stable st o name r H Ho) as [R1 R2].
+  destruct (IH (hstep st o) name r R1 Hrest) as [A B]. split; [exact A|]. unfold hrun in B. rewrite B. exact R2.
+Qed.
+
+(* the operations that CONSTRUCT objects (they never touch an existing Scale object when the new object is new) *)
+Definition constructs (o : hop) : bool :=
+  match o with
+  | HScale _ _ _ | HScaleCopy _ _ | HKey _ _ _ | HKeyNamed _ _ _ | HKeyCopy _ _ | HKeyDeep _ _ _ => true
+  | _ => false
+  end.
